@@ -404,9 +404,11 @@ func checkC12(c *Ctx) {
 	for i, src := range []string{
 		"package p\n\nvar a = `x\ny\n\nz`\n\n// doc of b\nvar b = 1 // trailing\n\nfunc f() {\n\ts := `one\ntwo` // t\n\n\t_ = s\n}\n",
 		"package p\n\nconst (\n\tq = `\n`\n\n\t// r\n\tr = \"s\"\n)\n\nvar v = []string{\n\t`a\nb`,\n\t`c`, // c\n\n\t`d\n\ne`,\n}\n",
+		// comments in front of raw strings that span lines (Start decorations of the literal itself)
+		"package p\n\nvar v = []string{\n\t// first\n\t`a\nb`,\n\t/* block */ `c\nd`,\n\n\t/* two\n\tlines */\n\t`e\n\nf`, // t\n}\n\nfunc f() {\n\tg( /* arg */ `x\ny`, 1)\n}\n",
 	} {
 		files = append(files, srcFile{fmt.Sprintf("hand-literals-%d", i), []byte(src)})
-		groups = append(groups, group{[]int{len(files) - 1}, "hand-literals"})
+		groups = append(groups, group{[]int{len(files) - 1}, "hand-literals"}, group{[]int{len(files) - 1}, "plain"}, group{[]int{len(files) - 1, len(files) - 1}, "plain"})
 	}
 	// two files with range statements, restored with Extras into one file set
 	files = append(files, srcFile{"extras-range-a", []byte("package p\n\nfunc a(m map[string]int) (s string) {\n\tfor k, e := range m {\n\t\tif e > 0 {\n\t\t\ts = k\n\t\t}\n\t}\n\treturn\n}\n")},
